@@ -326,11 +326,30 @@ def check_psf_images(case, ctx):
         init['flux'] = init['flux'] * 8
         if case['local_bkg']:
             init['local_bkg'] = init['local_bkg'] * 8
-    ph = PSFPhotometry(model, (5, 5), aperture_radius=4)
+    itmode = case.get('iterative')
+    if itmode:
+        # one fit iteration of the iterative class (the finder is never
+        # consulted): its images are those of the same fitted table
+        from photutils.detection import DAOStarFinder
+        from photutils.psf import IterativePSFPhotometry, SourceGrouper
+        ph = IterativePSFPhotometry(model, (5, 5), DAOStarFinder(1e30, 3.0),
+                                    aperture_radius=4, maxiters=1, mode=itmode,
+                                    grouper=SourceGrouper(1.5)
+                                    if itmode == 'all' else None)
+        ctx.event('iterative_' + itmode)
+    else:
+        ph = PSFPhotometry(model, (5, 5), aperture_radius=4)
     with warnings.catch_warnings():
         warnings.simplefilter('ignore')
         res = ph(d_in, init_params=init)
         inc = case['include_localbkg']
+        # earlier image requests with other options must leave no trace
+        for prev in case.get('earlier_images') or []:
+            ctx.event('earlier_image_request')
+            if prev[0] == 'model':
+                ph.make_model_image(shape, psf_shape=(9, 9), include_localbkg=prev[1])
+            else:
+                ph.make_residual_image(d_in, psf_shape=(9, 9), include_localbkg=prev[1])
         mimg = ph.make_model_image(shape, psf_shape=(9, 9), include_localbkg=inc)
         rimg = ph.make_residual_image(d_in, psf_shape=(9, 9), include_localbkg=inc)
         t = QTable()
@@ -360,6 +379,10 @@ def psf_image_cases(draw):
             'seed': draw(st.integers(0, 10**5)), 'border': draw(st.sampled_from([0, 4, 8])),
             'local_bkg': draw(st.booleans()),
             'include_localbkg': draw(st.booleans()),
+            'iterative': draw(st.sampled_from([None, None, 'new', 'all'])),
+            'earlier_images': draw(st.lists(st.tuples(
+                st.sampled_from(['model', 'residual']), st.booleans()).map(list),
+                max_size=2)),
             'rep': draw(st.sampled_from(['array', 'array', 'quantity', 'nddata',
                                          'float32', 'int32']))}
 
